@@ -288,7 +288,8 @@ class C23(Property):
         if simple == "long":
             make_tree(rng, src, max_entries=rng.choice([4, 10]), nasty=0.5, symlinks=False, long_names=True, big=None)
             return src, base, {"tarfile-gnu": py_tar(parent, base, tarfile.GNU_FORMAT), "gnutar-gnu": gnu_tar(parent, base, "gnu"),
-                               "async-writer": async_write(src, base)}
+                               "async-writer": async_write(src, base), "tarfile-pax": py_tar(parent, base, tarfile.PAX_FORMAT),
+                               "gnutar-posix": gnu_tar(parent, base, "posix"), "async-writer-pax": async_write(src, base, tarfile.PAX_FORMAT)}
         make_tree(rng, src, max_entries=rng.choice([0, 3, 8, 30]) if not simple else rng.choice([1, 4, 8]), nasty=0.0 if simple else 0.5,
                   symlinks=not simple, long_names=not simple, big=big)
         arch = {}
